@@ -638,6 +638,42 @@ func run(r *Rng, tier string, n int) {
 				p += 4 + l
 			}
 		}
+		// SVCB / HTTPS and EDNS0 values at the upper bounds of their encodings: an alpn-id of 254 and 255 octets,
+		// many hints, long opaque values; APL prefixes with an empty address part, negated or not
+		for _, vals := range [][]dns.SVCBKeyValue{
+			{&dns.SVCBAlpn{Alpn: []string{strings.Repeat("a", 255)}}},
+			{&dns.SVCBAlpn{Alpn: []string{strings.Repeat("a", 254), strings.Repeat("b", 255), "h2"}}},
+			{&dns.SVCBIPv4Hint{Hint: []net.IP{{1, 2, 3, 4}, {5, 6, 7, 8}, {9, 9, 9, 9}}}, &dns.SVCBECHConfig{ECH: bytes.Repeat([]byte{7}, 2000)}},
+			{&dns.SVCBDoHPath{Template: "/" + strings.Repeat("q", 500) + "{?dns}"}, &dns.SVCBLocal{KeyCode: 65400, Data: bytes.Repeat([]byte{1}, 3000)}},
+		} {
+			for _, typ := range []uint16{dns.TypeSVCB, dns.TypeHTTPS} {
+				var rr dns.RR
+				sv := dns.SVCB{Hdr: dns.RR_Header{Name: "svc.example.", Rrtype: typ, Class: 1, Ttl: 5}, Priority: 1, Target: ".", Value: vals}
+				if typ == dns.TypeHTTPS {
+					rr = &dns.HTTPS{SVCB: sv}
+				} else {
+					rr = &sv
+				}
+				m := new(dns.Msg)
+				m.SetQuestion("svc.example.", typ)
+				m.Answer = []dns.RR{rr}
+				checkMsg(m, true, false)
+				st["svcb_upper_bound_messages"]++
+			}
+		}
+		for _, pfx := range []dns.APLPrefix{
+			{Negation: true, Network: net.IPNet{IP: net.IPv4zero.To4(), Mask: net.CIDRMask(0, 32)}},
+			{Negation: false, Network: net.IPNet{IP: net.IPv4zero.To4(), Mask: net.CIDRMask(0, 32)}},
+			{Negation: true, Network: net.IPNet{IP: net.IPv6zero, Mask: net.CIDRMask(7, 128)}},
+			{Negation: true, Network: net.IPNet{IP: net.IPv4(10, 0, 0, 0).To4(), Mask: net.CIDRMask(8, 32)}},
+			{Negation: true, Network: net.IPNet{IP: net.IPv4(10, 7, 240, 0).To4(), Mask: net.CIDRMask(20, 32)}},
+		} {
+			m := new(dns.Msg)
+			m.SetQuestion("apl.example.", dns.TypeAPL)
+			m.Answer = []dns.RR{&dns.APL{Hdr: dns.RR_Header{Name: "apl.example.", Rrtype: dns.TypeAPL, Class: 1, Ttl: 5}, Prefixes: []dns.APLPrefix{pfx, pfx}}}
+			checkMsg(m, true, false)
+			st["apl_corner_messages"]++
+		}
 		m := new(dns.Msg)
 		m.Compress = true
 		m.SetQuestion("a.", dns.TypeA)
